@@ -294,7 +294,7 @@ pub fn tables() -> Vec<Value> {
     evs.push(json!({"ev": "prim.ambig", "row": amb, "panic": ""}));
     // weights as round(6*w): 6,3,2,0 ; order of the vector is [A, C, T, G] = digit order
     let prob: Vec<Vec<i64>> = (0..256)
-        .map(|b| base_to_prob(b as u8).iter().map(|p| (p * 6.0).round() as i64).collect())
+        .map(|b| base_to_prob(b as u8).iter().map(|p| if p.is_finite() { (p * 6.0).round() as i64 } else { -1 }).collect())
         .collect();
     evs.push(json!({"ev": "prim.prob", "row": prob, "panic": ""}));
     let enc: Vec<u8> = (0..256).map(|b| encode_base(b as u8)).collect();
@@ -425,7 +425,10 @@ fn op_tbl<IntT: for<'a> UInt<'a>>(op: &Value) -> Value {
                     .iter()
                     .map(|row| {
                         row.iter()
-                            .map(|(a, b)| vec![(a * 100.0).round() as i64, (b * 100000.0).round() as i64])
+                            .map(|(a, b)| {
+                                let fin = |x: f64, sc: f64| if x.is_finite() { (x * sc).round() as i64 } else { -1 };
+                                vec![fin(*a, 100.0), fin(*b, 100000.0)]
+                            })
                             .collect()
                     })
                     .collect();
@@ -477,7 +480,9 @@ fn op_distcmd<IntT: for<'a> UInt<'a>>(op: &Value) -> Value {
         if f.len() == 4 {
             let d: f64 = f[2].parse().unwrap_or(-1.0);
             let m: f64 = f[3].parse().unwrap_or(-1.0);
-            rows.push(json!([f[0], f[1], (d * 100.0).round() as i64, (m * 100000.0).round() as i64]));
+            // NaN / inf are data, never a valid value: -1 (a cast would turn NaN into 0)
+            let fin = |x: f64, sc: f64| if x.is_finite() { (x * sc).round() as i64 } else { -1 };
+            rows.push(json!([f[0], f[1], fin(d, 100.0), fin(m, 100000.0)]));
         }
     }
     json!({"rows": rows})
